@@ -75,3 +75,18 @@ Definition verdict (c : N * list ev * list out * N * N * bool) : N :=
    else if panicked || negb (chk iv evs os fin_on fin_off) then 2
    else if outs_eqb mos os && (on_acc s' =? fin_on) && (off_acc s' =? fin_off) then 0
    else 1).
+
+(* End to end through the converter (`samply import` of a recording with context-switch records): the events of one thread in record order -
+   every PERF_RECORD_SWITCH in / out, whatever further flags the out record carries, and every main-event sample, after which the converter
+   takes the accumulated CPU time (Consume) and stores it with the sample - and the CPU deltas of the thread's samples as serialized (ns).
+   Property clause decided on the observation: the deltas handed out sum to exactly the time the thread was observed running up to its last
+   sample.  0 ok / 1 differs from the model only / 2 the clause fails (or the import failed); +10 non-trivial: a switch-out precedes a sample *)
+Definition deltas_of (os : list out) : list N := flat_map (fun o => match o with ODelta d => [d] | _ => [] end) os.
+Fixpoint listN_eqb (a b : list N) : bool :=
+  match a, b with [], [] => true | x :: a', y :: b' => (x =? y) && listN_eqb a' b' | _, _ => false end.
+Definition verdict_e2e (c : N * list ev * list N * bool) : N :=
+  let '(iv, evs, obs, failed) := c in
+  let '(_, mos) := run iv cs_init evs in
+  (if existsb (fun e => match e with SwOut _ => true | _ => false end) evs && negb (match obs with [] => true | _ => false end) then 10 else 0) +
+  (if failed || negb (fold_right N.add 0 obs =? running (timed evs)) then 2
+   else if listN_eqb (deltas_of mos) obs then 0 else 1).
